@@ -247,6 +247,36 @@ def run_case(case):
                     w.cfgs[gi] = cfg
                 if op.get("kind") == "other":
                     pass  # operand cfg must be unchanged: checked by check_state via its model
+            elif name == "reload":
+                # IR A is saved, every edge record of the file is written twice
+                # (a file may repeat a record; the CFG is a set), and the file is
+                # loaded: the history continues on the loaded IR
+                if any(k[0] > 2 or k[1] > 2 for k in w.models[0]) or any(k[0] <= 2 or k[1] <= 2 for k in w.models[1]):
+                    res.tag("reload:not-self-contained")
+                else:
+                    import io
+                    from gtirb.proto import IR_pb2
+
+                    buf = io.BytesIO()
+                    w.irA.save_protobuf_file(buf)
+                    data = buf.getvalue()
+                    msg = IR_pb2.IR()
+                    msg.ParseFromString(data[8:])
+                    recs = list(msg.cfg.edges)
+                    if op.get("dup"):
+                        for rec in reversed(recs):
+                            msg.cfg.edges.add().CopyFrom(rec)
+                        res.tag("reload:edge-records-repeated")
+                    ir2 = w.g.IR.load_protobuf_file(io.BytesIO(data[:8] + msg.SerializeToString()))
+                    for i in (0, 1, 2):
+                        n2 = ir2.get_by_uuid(w.nodes[i].uuid)
+                        if n2 is None:
+                            res.fail("C11:reload-lost-node", where)
+                            return res
+                        w.nodes[i] = n2
+                    w.irA = ir2
+                    w.cfgs[0] = ir2.cfg
+                    res.tag("reload:done")
             elif name == "construct":
                 es = op.get("es", [])
                 fresh = w.g.CFG([w.edge(*e) for e in es])
@@ -305,6 +335,7 @@ def strategy():
         "isub": progs.op("isub", es=es, kind=kind, g=g_),
         "ixor": progs.op("ixor", es=es, kind=kind, g=g_),
         "construct": progs.op("construct", es=es),
+        "reload": progs.op("reload", dup=st.booleans()),
     }
     return progs.programs(ops, max_len=40, always=("add", "discard")).map(lambda p: {"ops": p})
 
